@@ -2,9 +2,12 @@
 """Evaluate a seeded breaking change against the monitors, in a scratch worktree (never in /repo).
 
   seedeval.py check   <patchdir> <PID> [PID...]   apply patch.diff, run ./check PID (quick) with VERIF_REPO
-  seedeval.py confirm <patchdir>                  (1) patch compiles + full existing suite passes,
-                                                  (2) demo.diff test fails with the patch, passes without
-Prints one JSON line per step. The worktree (/tmp/sv-<name>) is removed at the end.
+  seedeval.py confirm <patchdir> [slot]           (1) patch compiles + full existing suite passes,
+                                                  (2) demo.diff test (command in <patchdir>/demo.cmd) fails
+                                                      with the patch and passes without it
+  seedeval.py cleanup                             remove every /tmp/sv-* worktree with its build output
+Prints one JSON line per step. `check` worktrees (/tmp/sv-<name>) are removed at the end; `confirm`
+re-uses /tmp/sv-confirm-<slot> (build output kept between patches; remove with `cleanup`).
 """
 import json, os, subprocess, sys, time, re
 
@@ -20,43 +23,84 @@ def worktree(name):
     assert rc == 0, out
     return wt
 
+SUITE = ("cargo nextest run --workspace --no-fail-fast --tool-config-file pb:/w/lib/nextest.toml "
+         "--profile pb --test-threads 8 --offline")
+
+def failures(out):
+    return sorted({re.sub(r"\s+", " ", l.strip())[:140] for l in out.split("\n")
+                   if re.match(r"\s+(FAIL|TIMEOUT|SIGABRT|SIGSEGV)", l)})
+
+def confirm(pdir, slot):
+    wt = f"/tmp/sv-confirm-{slot}"
+    if not os.path.isdir(wt):
+        rc, out, _ = sh(f"git -C /repo worktree add -q --detach {wt} HEAD")
+        assert rc == 0, out
+    head = sh("git -C /repo rev-parse HEAD")[1].strip()
+    sh(f"git -C {wt} checkout -q --detach {head}; git -C {wt} checkout -- . ; git -C {wt} clean -fdq -e target")
+    res = {"patch": pdir, "base": head}
+    rc, out, _ = sh(f"git -C {wt} apply {pdir}/patch.diff")
+    if rc != 0:
+        print(json.dumps({"step": "apply", "ok": False, "out": out[-500:]})); return 2
+    rc, out, dt = sh(SUITE, cwd=wt)
+    summ = [l.strip() for l in out.split("\n") if "Summary" in l]
+    fails = failures(out)
+    # timing-dependent tests on a loaded machine: re-run each failing test alone before judging
+    still = []
+    names = [f.split()[-1] for f in fails]
+    if names:
+        # first all of them together at low parallelism, then the remaining ones one by one
+        expr = " | ".join(f"test(={n})" for n in names)
+        rc1, out1, _ = sh(f"cargo nextest run --workspace --offline --no-fail-fast --test-threads 3 --tool-config-file pb:/w/lib/nextest.toml --profile pb -E '{expr}'", cwd=wt)
+        again = [f.split()[-1] for f in failures(out1)] if rc1 != 0 else []
+        for name in again:
+            rc2, out2, _ = sh(f"cargo nextest run --workspace --offline --tool-config-file pb:/w/lib/nextest.toml --profile pb -E 'test(={name})'", cwd=wt)
+            if rc2 != 0:
+                still.append(name)
+    print(json.dumps({"step": "existing-suite-with-patch", "exit": rc, "wall_s": round(dt), "summary": summ[-1:],
+                      "failed_in_full_run": fails[:12], "still_failing_alone": still[:12],
+                      "compile_error": ("error: could not compile" in out)}))
+    ok_suite = not still and "error: could not compile" not in out and bool(summ)
+    demo = f"{pdir}/demo.diff"
+    ok_demo = None
+    if os.path.exists(demo) and os.path.exists(f"{pdir}/demo.cmd"):
+        rc, out, _ = sh(f"git -C {wt} apply {demo}")
+        print(json.dumps({"step": "apply-demo", "exit": rc, "out": out[-300:]}))
+        cmd = open(f"{pdir}/demo.cmd").read().strip()
+        rc1, out1, dt1 = sh(cmd, cwd=wt)
+        print(json.dumps({"step": "demo-with-patch", "exit": rc1, "wall_s": round(dt1), "tail": out1[-600:]}))
+        sh(f"git -C {wt} apply -R {pdir}/patch.diff")
+        rc2, out2, dt2 = sh(cmd, cwd=wt)
+        print(json.dumps({"step": "demo-without-patch", "exit": rc2, "wall_s": round(dt2), "tail": out2[-300:]}))
+        ran = lambda o: re.search(r"(\d+) passed|test result: ok\. [1-9]|PASS \[", o) is not None
+        ok_demo = rc1 != 0 and rc2 == 0 and "could not compile" not in out1 and ran(out2)
+    print(json.dumps({"step": "verdict", "patch": pdir, "base": head, "suite_passes_with_patch": ok_suite, "demo_discriminates": ok_demo}))
+    sh(f"git -C {wt} checkout -- . ; git -C {wt} clean -fdq -e target")
+    return 0
+
 def main():
-    mode, pdir = sys.argv[1], os.path.abspath(sys.argv[2])
+    mode = sys.argv[1]
+    if mode == "cleanup":
+        import glob
+        for wt in glob.glob("/tmp/sv-*"):
+            sh(f"git -C /repo worktree remove --force {wt}"); sh(f"rm -rf {wt}")
+        sh("git -C /repo worktree prune")
+        return 0
+    pdir = os.path.abspath(sys.argv[2])
+    if mode == "confirm":
+        return confirm(pdir, sys.argv[3] if len(sys.argv) > 3 else "a")
     name = re.sub(r"[^A-Za-z0-9]", "-", pdir.strip("/"))[-40:]
     wt = worktree(name + "-" + mode)
     try:
-        if mode == "check":
-            rc, out, _ = sh(f"git -C {wt} apply {pdir}/patch.diff")
-            if rc != 0:
-                print(json.dumps({"step": "apply", "ok": False, "out": out[-500:]})); return 2
-            for pid in sys.argv[3:]:
-                env = dict(os.environ, VERIF_REPO=wt)
-                rc, out, dt = sh(f"./check {pid} --tier quick", cwd="/verif", env=env)
-                lines = [l for l in out.split("\n") if l.startswith(("VIOLATION", "KNOWN", "INCONCLUSIVE", pid))]
-                print(json.dumps({"step": "check", "property": pid, "exit": rc, "wall_s": round(dt), "lines": [l[:260] for l in lines[-8:]]}))
-        else:
-            # (1) existing suite with the patch
-            rc, out, _ = sh(f"git -C {wt} apply {pdir}/patch.diff")
-            if rc != 0:
-                print(json.dumps({"step": "apply", "ok": False, "out": out[-500:]})); return 2
-            rc, out, dt = sh("cargo nextest run --workspace --no-fail-fast --tool-config-file pb:/w/lib/nextest.toml --profile pb --test-threads 8 --offline", cwd=wt)
-            summ = [l.strip() for l in out.split("\n") if "Summary" in l]
-            fails = sorted({l.strip()[:140] for l in out.split("\n") if re.match(r"\s+(FAIL|TIMEOUT|SIGABRT|SIGSEGV)", l)})
-            print(json.dumps({"step": "existing-suite-with-patch", "exit": rc, "wall_s": round(dt), "summary": summ[-1:] , "failures": fails[:8]}))
-            # (2) demo with patch
-            demo = f"{pdir}/demo.diff"
-            if os.path.exists(demo):
-                rc, out, _ = sh(f"git -C {wt} apply {demo}")
-                print(json.dumps({"step": "apply-demo", "exit": rc, "out": out[-300:]}))
-                cmd = open(f"{pdir}/demo.cmd").read().strip() if os.path.exists(f"{pdir}/demo.cmd") else None
-                if cmd:
-                    rc1, out1, dt1 = sh(cmd, cwd=wt)
-                    print(json.dumps({"step": "demo-with-patch", "exit": rc1, "wall_s": round(dt1), "tail": out1[-400:]}))
-                    sh(f"git -C {wt} apply -R {pdir}/patch.diff")
-                    rc2, out2, dt2 = sh(cmd, cwd=wt)
-                    print(json.dumps({"step": "demo-without-patch", "exit": rc2, "wall_s": round(dt2), "tail": out2[-300:]}))
+        rc, out, _ = sh(f"git -C {wt} apply {pdir}/patch.diff")
+        if rc != 0:
+            print(json.dumps({"step": "apply", "ok": False, "out": out[-500:]})); return 2
+        for pid in sys.argv[3:]:
+            env = dict(os.environ, VERIF_REPO=wt)
+            rc, out, dt = sh(f"./check {pid} --tier quick", cwd="/verif", env=env)
+            lines = [l for l in out.split("\n") if l.startswith(("VIOLATION", "KNOWN", "INCONCLUSIVE", pid))]
+            print(json.dumps({"step": "check", "property": pid, "exit": rc, "wall_s": round(dt), "lines": [l[:260] for l in lines[-8:]]}))
     finally:
-        sh(f"git -C /repo worktree remove --force {wt}")
+        sh(f"git -C /repo worktree remove --force {wt}"); sh(f"rm -rf {wt}")
     return 0
 
 if __name__ == "__main__":
